@@ -1,2 +1,6 @@
 import LyModel.Props.C07
-#print axioms LyModel.Props.C07.placeholder
+#print axioms LyModel.Props.C07.dflt_flag_sound
+#print axioms LyModel.Props.C07.is_default_iff_rfc6243_fails
+#print axioms LyModel.Props.C07.is_default_iff_rfc6243_partial
+#print axioms LyModel.Props.C07.wd_modes_term
+#print axioms LyModel.Props.C07.wd_modes_inner
